@@ -69,12 +69,31 @@ def check(run: Run) -> None:
                     n_sched += 1
                     res, _ = run_threads(jobs, schedule)
                     got = [key(T, r) for r in res]
+                    # ... and with FRESH types: whatever a type sets up on first use (caches filled lazily) is then set up by two threads at once
+                    cs_c = structs.load(text, compiled=compiled)
+                    T_c = cs_c.resolve("main")
+
+                    def job_c(d, T_c=T_c):
+                        def f():
+                            st = io.BytesIO(d)
+                            v = T_c._read(st)
+                            return (v, st.tell(), v.dumps())
+                        return f
+
+                    n_sched += 1
+                    res_c, _ = run_threads([job_c(datas[0]), job_c(datas[1])], schedule)
+                    got_c = [key(T_c, r) for r in res_c]
+                    if got == alone and got_c != alone:
+                        got = got_c
+                        cold = True
+                    else:
+                        cold = False
                     if got != alone:
                         failures += 1
                         which = 0 if got[0] != alone[0] else 1
-                        run.report("C15/interleaving" + ("/compiled" if compiled else ""),
+                        run.report("C15/interleaving" + ("/first-use" if cold else "") + ("/compiled" if compiled else ""),
                                    {"definition": text, "load_kwargs": {"compiled": compiled}, "ops": [{"op": "two threads parse+dump with shared types", "data": [d.hex() for d in datas],
-                                    "schedule": f"thread0 x{a} lines, thread1 x{b} lines, thread0 to completion, thread1 to completion", "thread": which,
+                                    "schedule": f"thread0 x{a} lines, thread1 x{b} lines, thread0 to completion, thread1 to completion" + (" (types loaded fresh for this schedule)" if cold else ""), "thread": which,
                                     "observed": repr(got[which])[:300], "expected": repr(alone[which])[:300]}]})
                         break
                 else:
@@ -92,7 +111,7 @@ def check(run: Run) -> None:
     cov["traces_validated_against_impl"] = n_sched - failures
     cov["rule"] = ("5 definitions (expression-sized arrays, bit fields, unions, pointers, enums, floats, LEB128, sizeof) x {compiled, interpreted}: two threads parse and dump "
                    "different inputs with the same type objects under a line-granularity scheduler; schedules = thread 0 runs a lines (a over %s pre-emption points), "
-                   "thread 1 runs b lines, then both finish; every thread's result is compared with its sequential result. distinct_nontrivial = schedules executed"
+                   "thread 1 runs b lines, then both finish, once with types that have been used before and once with types loaded fresh for the schedule; every thread's result is compared with its sequential result. distinct_nontrivial = schedules executed"
                    % ("all" if thorough else "about 60 evenly spaced"))
     cov["distribution"] = {"workloads": n_work, "schedules": n_sched, "oracle_failures": failures}
     cov["samples"] = samples[:4]
